@@ -19,11 +19,16 @@ def sample_model_dict() -> dict:
         return tomllib.load(f)
 
 
-def special_model(base: dict, ceiling_ft=None, climb_ff_scale=None):
-    """The sample table with a lower ceiling and / or a thirstier climb and descent."""
+def special_model(base: dict, ceiling_ft=None, climb_ff_scale=None, descent_rocd_scale=None):
+    """The sample table with a lower ceiling, a thirstier climb and descent, and / or a
+    shallower descent."""
     d = copy.deepcopy(base)
     cols = [c.lower() for c in d['flight_performance']['cols']]
     iff, iro = cols.index('fuel_flow'), cols.index('rocd')
+    if descent_rocd_scale:
+        for r in d['flight_performance']['data']:
+            if r[iro] < -1e-6:
+                r[iro] *= descent_rocd_scale
     if climb_ff_scale:
         for r in d['flight_performance']['data']:
             if abs(r[iro]) > 1e-6:
